@@ -61,7 +61,7 @@ func ruleLabelFormatDirection(r *Run) {
 	// engine: which field goes to Set (destination), which to Get/Delete (source)
 	dstField, srcField, delField := "", "", ""
 	nSet, nDel := 0, 0
-	var setCall, getCall ssa.CallInstruction
+	var setCall, getCall, delCall ssa.CallInstruction
 	for _, c := range callsIn(rp) {
 		arg := func(i int) string {
 			f, _, ok := loadOfField(c.Common().Args[i])
@@ -81,6 +81,7 @@ func ruleLabelFormatDirection(r *Run) {
 		case callIs(c, eng, "(*LabelSet).Delete"):
 			delField = arg(1)
 			nDel++
+			delCall = c
 		}
 	}
 	bad := false
@@ -120,6 +121,24 @@ func ruleLabelFormatDirection(r *Run) {
 		if setCall.Common().Args[2] != val {
 			bad = true
 			o.Fail(r.pos(setCall.Pos()), "the destination receives %s, not the value of the source label", describe(setCall.Common().Args[2], 0))
+		}
+	}
+	// the source is deleted in the iteration that read it, before the next pair is looked at (a
+	// later pair may rename another label to this name)
+	if getCall != nil && delCall != nil {
+		inner := func(b *ssa.BasicBlock) *rangeLoop {
+			var best *rangeLoop
+			for _, l := range rangeIndexLoops(rp) {
+				if l.Blocks[b] && (best == nil || len(l.Blocks) < len(best.Blocks)) {
+					best = l
+				}
+			}
+			return best
+		}
+		lg, ld := inner(getCall.Block()), inner(delCall.Block())
+		if lg == nil || ld == nil || lg.Header != ld.Header || !instrDominates(getCall, delCall) {
+			bad = true
+			o.Fail(r.pos(delCall.Pos()), "the source label is not deleted in the loop iteration that read it: a pair processed in between may have renamed another label to this name, which is then deleted")
 		}
 	}
 	if !bad {
